@@ -381,6 +381,49 @@ example :
       (fun p => decide (p.1 = p.2 ∧ Obs.act "X".toList ∈ p.1 ∧ Obs.act "Q".toList ∈ p.1)) = some true :=
   ⟨by decide +kernel, by decide +kernel, by decide +kernel⟩
 
+/-- rows merged into one node by their node name: `a`, `b`, `c` (three actions in one node, left on a
+test of the reply — the router node the compiler puts behind the merged node — and unconditionally),
+`d`, `e`, and `g` with the row after it (blank `from`, no row id); a `go_to` back to the first row of
+a chain -/
+def exMerge : List CoreSheet.CRow :=
+  [ mkRow "a" "send_message" [("start", "")] (some "A") (nname := "X"),
+    mkRow "b" "add_to_group" [("a", "")] (some "B") (nname := "X"),
+    mkRow "c" "send_message" [("b", "")] (some "C") (nname := "X"),
+    mkRow "d" "send_message" [("c", "yes")] (some "D") (nname := "Y"),
+    mkRow "e" "send_message" [("d", "")] (some "E") (nname := "Y"),
+    mkRow "f" "send_message" [("c", ""), ("e", "")] (some "F"),
+    mkRow "w" "wait_for_response" [("f", "")] none,
+    mkRow "" "go_to" [("w", "again")] none (dests := ["a"]),
+    mkRow "g" "send_message" [("w", "")] (some "G") (nname := "Z"),
+    mkRow "" "send_message" [("", "")] (some "H") (nname := "Z") ]
+
+/-- non-vacuity with merged rows: in the fragment; 6 compiled nodes (one per chain, the router behind
+the first chain, `f`, `w`), 9 reference nodes (one per row) -/
+example : CoreSheet.inFragment exMerge = true ∧
+    (∃ out, Compile.compile RefFlow.noArgsTests exTests (exMerge.map CoreSheet.toEvent) = .ok out ∧
+      out.nodes.length = 6) ∧
+    (∃ r, RefFlow.refFlow (exMerge.map CoreSheet.toRRow) = .ok r ∧ r.nodes.length = 9) := by
+  refine ⟨by decide +kernel, ?_, ?_⟩
+  · have h : (match Compile.compile RefFlow.noArgsTests exTests (exMerge.map CoreSheet.toEvent) with
+        | .ok out => decide (out.nodes.length = 6) | .error _ => false) = true := by decide +kernel
+    split at h
+    · rename_i out ho; exact ⟨out, ho, by simpa using h⟩
+    · cases h
+  · have h : (match RefFlow.refFlow (exMerge.map CoreSheet.toRRow) with
+        | .ok r => decide (r.nodes.length = 9) | .error _ => false) = true := by decide +kernel
+    split at h
+    · rename_i r hr; exact ⟨r, hr, by simpa using h⟩
+    · cases h
+
+/-- … the traces agree: around the cycle through all three chains' first, and through the defaults to
+the end of the flow -/
+example :
+    (bothTraces exMerge (fun _ => 0) 12).map
+      (fun p => decide (p.1 = p.2 ∧ p.1.length = 12 ∧ Obs.act "E".toList ∈ p.1)) = some true ∧
+    (bothTraces exMerge (fun _ => 1) 12).map
+      (fun p => decide (p.1 = p.2 ∧ p.1.length = 8 ∧ Obs.act "H".toList ∈ p.1)) = some true :=
+  ⟨by decide +kernel, by decide +kernel⟩
+
 /-- outside the fragment, with both readings defined and the traces DIFFERENT (on the answer stream
 `env`) -/
 def refutedAt (rows : List CoreSheet.CRow) (env : Nat → Nat) (n : Nat) : Bool :=
@@ -645,6 +688,46 @@ theorem action_merged_into_router_runs_before_decision :
              mkRow "w" "wait_for_response" [("a", "")] none (nname := "X"),
              mkRow "b" "send_message" [("w", "")] (some "after the wait") (nname := "X"),
              mkRow "c" "send_message" [("w", "yes")] (some "on yes")] 2 = true := by
+  decide +kernel
+
+/-- clause `chainsOk`, the row merged behind has no other out-edge: with a second unconditional edge
+the rows say "the last edge wins" (`A`, then `C`), the merged node performs `A`, `B` -/
+theorem fragment_needs_chain_row_single_edge :
+    refuted [mkRow "a" "send_message" [("start", "")] (some "A") (nname := "X"),
+             mkRow "b" "send_message" [("a", "")] (some "B") (nname := "X"),
+             mkRow "c" "send_message" [("a", "")] (some "C")] 3 = true := by
+  decide +kernel
+
+/-- … nor a conditional one: the rows decide after `A`, the merged node performs `B` first -/
+theorem fragment_needs_chain_row_unconditional :
+    refuted [mkRow "a" "send_message" [("start", "")] (some "A") (nname := "X"),
+             mkRow "b" "send_message" [("a", "")] (some "B") (nname := "X"),
+             mkRow "c" "send_message" [("a", "yes")] (some "C")] 3 = true := by
+  decide +kernel
+
+/-- clause `chainsOk`, a chain is a chain: a row merged behind the FIRST row of a chain that has a
+second row already (both lead on from `a`: for the rows only the last edge counts) -/
+theorem fragment_needs_linear_chain :
+    refuted [mkRow "a" "send_message" [("start", "")] (some "A") (nname := "X"),
+             mkRow "b" "send_message" [("a", "")] (some "B") (nname := "X"),
+             mkRow "c" "send_message" [("a", "")] (some "C") (nname := "X")] 4 = true := by
+  decide +kernel
+
+/-- clause `chainsOk`, a blank `from` after a merged row: the compiler takes the last row that created a
+node GROUP (`z`), the rows the row before (`b`) -/
+theorem fragment_needs_explicit_from_after_detached_merge :
+    refuted [mkRow "a" "send_message" [("start", "")] (some "A") (nname := "X"),
+             mkRow "z" "send_message" [("start", "")] (some "Z"),
+             mkRow "b" "send_message" [("a", "")] (some "B") (nname := "X"),
+             mkRow "d" "send_message" [("", "")] (some "D")] 4 = true := by
+  decide +kernel
+
+/-- … with an explicit `from` the same sheet is inside -/
+example : CoreSheet.inFragment
+    [mkRow "a" "send_message" [("start", "")] (some "A") (nname := "X"),
+     mkRow "z" "send_message" [("start", "")] (some "Z"),
+     mkRow "b" "send_message" [("a", "")] (some "B") (nname := "X"),
+     mkRow "d" "send_message" [("b", "")] (some "D")] = true := by
   decide +kernel
 
 /-- T1: the tests without argument of the reference interpretation are the source's
